@@ -74,26 +74,30 @@ func (h *StreamHandler) Browse(req *BrowseRequest) *BrowseResponse {
 	}
 }
 
-// requirePath validates that the request has a non-empty path within allowed paths,
-// and returns the cleaned path. If validation fails, it returns an error response.
-func (h *StreamHandler) requirePath(path string) (string, *BrowseResponse) {
+// requirePath validates that the request has a non-empty path within allowed paths, both
+// as requested and after its symbolic links are resolved. It returns the real path that
+// the action must operate on. With followFinal false the last component is not resolved
+// (the action applies to a link itself). If validation fails, it returns an error response.
+func (h *StreamHandler) requirePath(path string, followFinal bool) (string, *BrowseResponse) {
 	if path == "" {
 		return "", &BrowseResponse{Error: "path is required"}
 	}
-	if err := h.validatePath(path); err != nil {
+	realPath, err := h.resolveAllowedPath(path, followFinal)
+	if err != nil {
 		return "", &BrowseResponse{Error: err.Error()}
 	}
-	return filepath.Clean(path), nil
+	return realPath, nil
 }
 
 // browseList lists directory contents with pagination.
 func (h *StreamHandler) browseList(req *BrowseRequest) *BrowseResponse {
-	cleanPath, errResp := h.requirePath(req.Path)
+	realPath, errResp := h.requirePath(req.Path, true)
 	if errResp != nil {
 		return errResp
 	}
+	cleanPath := filepath.Clean(req.Path) // echoed back as requested
 
-	info, err := os.Stat(cleanPath)
+	info, err := os.Stat(realPath)
 	if err != nil {
 		return &BrowseResponse{Error: fmt.Sprintf("path not found: %s", cleanPath)}
 	}
@@ -101,14 +105,14 @@ func (h *StreamHandler) browseList(req *BrowseRequest) *BrowseResponse {
 		return &BrowseResponse{Error: fmt.Sprintf("not a directory: %s", cleanPath)}
 	}
 
-	dirEntries, err := os.ReadDir(cleanPath)
+	dirEntries, err := os.ReadDir(realPath)
 	if err != nil {
 		return &BrowseResponse{Error: fmt.Sprintf("failed to read directory: %v", err)}
 	}
 
 	entries := make([]FileEntry, 0, len(dirEntries))
 	for _, de := range dirEntries {
-		entries = append(entries, buildFileEntry(cleanPath, de))
+		entries = append(entries, h.buildFileEntry(realPath, de))
 	}
 
 	// Sort: directories first, then alphabetical by name
@@ -159,25 +163,25 @@ func (h *StreamHandler) browseList(req *BrowseRequest) *BrowseResponse {
 
 // browseStat returns info about a single path.
 func (h *StreamHandler) browseStat(req *BrowseRequest) *BrowseResponse {
-	cleanPath, errResp := h.requirePath(req.Path)
+	realPath, errResp := h.requirePath(req.Path, false)
 	if errResp != nil {
 		return errResp
 	}
 
-	entry, err := statPath(cleanPath)
+	entry, err := h.statPath(realPath)
 	if err != nil {
 		return &BrowseResponse{Error: err.Error()}
 	}
 
 	return &BrowseResponse{
-		Path:  cleanPath,
+		Path:  filepath.Clean(req.Path),
 		Entry: entry,
 	}
 }
 
 // browseChmod changes file permissions.
 func (h *StreamHandler) browseChmod(req *BrowseRequest) *BrowseResponse {
-	cleanPath, errResp := h.requirePath(req.Path)
+	realPath, errResp := h.requirePath(req.Path, true)
 	if errResp != nil {
 		return errResp
 	}
@@ -187,37 +191,42 @@ func (h *StreamHandler) browseChmod(req *BrowseRequest) *BrowseResponse {
 		return &BrowseResponse{Error: err.Error()}
 	}
 
-	if err := os.Chmod(cleanPath, mode); err != nil {
+	if err := os.Chmod(realPath, mode); err != nil {
 		return &BrowseResponse{Error: fmt.Sprintf("chmod failed: %v", err)}
 	}
 
-	entry, err := statPath(cleanPath)
+	entry, err := h.statPath(realPath)
 	if err != nil {
 		return &BrowseResponse{Error: err.Error()}
 	}
 
 	return &BrowseResponse{
-		Path:  cleanPath,
+		Path:  filepath.Clean(req.Path),
 		Entry: entry,
 	}
 }
 
 // browseDelete deletes a file or directory.
 func (h *StreamHandler) browseDelete(req *BrowseRequest) *BrowseResponse {
-	cleanPath, errResp := h.requirePath(req.Path)
+	realPath, errResp := h.requirePath(req.Path, false)
 	if errResp != nil {
 		return errResp
 	}
 
 	// Capture entry info before deletion
-	entry, err := statPath(cleanPath)
+	entry, err := h.statPath(realPath)
 	if err != nil {
 		return &BrowseResponse{Error: err.Error()}
 	}
 
-	// Guard: non-empty directories require the recursive flag
-	if entry.IsDir {
-		dirEntries, err := os.ReadDir(cleanPath)
+	// Guard: non-empty directories require the recursive flag. A link to a directory is
+	// deleted as a link; listing follows links, so it uses the fully resolved path.
+	if entry.IsDir && !entry.IsSymlink {
+		dirPath, err := h.ResolvePath(realPath)
+		if err != nil {
+			return &BrowseResponse{Error: err.Error()}
+		}
+		dirEntries, err := os.ReadDir(dirPath)
 		if err != nil {
 			return &BrowseResponse{Error: fmt.Sprintf("failed to read directory: %v", err)}
 		}
@@ -231,12 +240,12 @@ func (h *StreamHandler) browseDelete(req *BrowseRequest) *BrowseResponse {
 	if req.Recursive && entry.IsDir {
 		removeFunc = os.RemoveAll
 	}
-	if err := removeFunc(cleanPath); err != nil {
+	if err := removeFunc(realPath); err != nil {
 		return &BrowseResponse{Error: fmt.Sprintf("delete failed: %v", err)}
 	}
 
 	return &BrowseResponse{
-		Path:  cleanPath,
+		Path:  filepath.Clean(req.Path),
 		Entry: entry,
 	}
 }
@@ -337,15 +346,22 @@ func populateFromFileInfo(entry *FileEntry, info os.FileInfo) {
 
 // resolveSymlink populates symlink-specific fields on a FileEntry.
 // It reads the link target and resolves the symlink to get the target's file info.
-// If the symlink is broken, it falls back to the lstat info.
-func resolveSymlink(entry *FileEntry, path string, linfo os.FileInfo) {
+// If the symlink is broken or leads outside the allowed paths, it falls back to the
+// lstat info: nothing outside the allowed paths is inspected.
+func (h *StreamHandler) resolveSymlink(entry *FileEntry, path string, linfo os.FileInfo) {
 	entry.IsSymlink = true
 	target, err := os.Readlink(path)
 	if err == nil {
 		entry.LinkTarget = target
 	}
 
-	info, err := os.Stat(path)
+	realTarget, err := h.ResolvePath(path)
+	if err != nil {
+		// Target not allowed or not resolvable -- fall back to lstat info
+		populateFromFileInfo(entry, linfo)
+		return
+	}
+	info, err := os.Stat(realTarget)
 	if err != nil {
 		// Broken symlink -- fall back to lstat info
 		populateFromFileInfo(entry, linfo)
@@ -355,7 +371,7 @@ func resolveSymlink(entry *FileEntry, path string, linfo os.FileInfo) {
 }
 
 // buildFileEntry creates a FileEntry from an os.DirEntry.
-func buildFileEntry(dir string, de os.DirEntry) FileEntry {
+func (h *StreamHandler) buildFileEntry(dir string, de os.DirEntry) FileEntry {
 	name := de.Name()
 	fullPath := filepath.Join(dir, name)
 	entry := FileEntry{Name: name}
@@ -368,7 +384,7 @@ func buildFileEntry(dir string, de os.DirEntry) FileEntry {
 	}
 
 	if linfo.Mode()&os.ModeSymlink != 0 {
-		resolveSymlink(&entry, fullPath, linfo)
+		h.resolveSymlink(&entry, fullPath, linfo)
 		return entry
 	}
 
@@ -383,7 +399,7 @@ func buildFileEntry(dir string, de os.DirEntry) FileEntry {
 }
 
 // statPath returns a FileEntry for a single path.
-func statPath(path string) (*FileEntry, error) {
+func (h *StreamHandler) statPath(path string) (*FileEntry, error) {
 	linfo, err := os.Lstat(path)
 	if err != nil {
 		return nil, fmt.Errorf("path not found: %s", path)
@@ -392,7 +408,7 @@ func statPath(path string) (*FileEntry, error) {
 	entry := FileEntry{Name: filepath.Base(path)}
 
 	if linfo.Mode()&os.ModeSymlink != 0 {
-		resolveSymlink(&entry, path, linfo)
+		h.resolveSymlink(&entry, path, linfo)
 		return &entry, nil
 	}
 
